@@ -778,7 +778,7 @@ impl BitField {
                     };
 
                     let mask2 = if #ty_bits -1 == #lsb {
-                        #ty::MAX
+                        #ty::MIN
                     } else {
                         !((1 << #lsb ) - 1)
                     };
